@@ -67,5 +67,13 @@ CLAIMS = {
         "note": TRUST + "SHA-256 / AES-CBC implementations; Python slicing semantics",
         "technique": "byte-sequence layout + congruence + interval domains, path-condition dominance (static analysis)",
     },
+    "C04": {
+        "text": "Segmentation independence is reduced to the inductive invariant of data_received (buffer = undelivered suffix, no "
+                "complete leading packet) and its premises are decided on value-flow terms: framing constant 8 agrees with both "
+                "encoders' affine lengths, tight `len(view) >= N` guard, delivered/kept partition at one N, append-not-replace, "
+                "untouched buffer on early returns, extraction loop ending only on an empty buffer, one FIFO put per packet.",
+        "note": TRUST + "asyncio.Queue FIFO; bytearray.find / slicing semantics; the function is sequential, so no schedule needs exploring",
+        "technique": "inductive-invariant premises checked on value-flow terms + affine lengths (static analysis)",
+    },
 }
 NOT_APPLICABLE = {}
